@@ -7,6 +7,7 @@
 
     cfg gen | cfg <retained|pairs1|pairs0> <lt|le> <delT> <delR>
     new <d> <rows> <resp>            rows = r;r;…  r = x,x,…
+    reload <d> <rows> <resp>         read_data on the existing object
     append <rows> <resp>   subset <features>   dedup <cutoff>
     std_resp <σ> | unstd_resp | norm_resp | unnorm_resp
     std_train <σs> | unstd_train | norm_train | unnorm_train
@@ -84,6 +85,17 @@ def stepLine (st : St) (ws : List String) : St × String :=
         let s := Data.init t r d
         ({ st with gp := some ⟨s, false, false, false⟩ }, showData s)
       else (st, "guard")
+    | _, _, _ => (st, "bad-op")
+  | ["reload", d, t, r] =>
+    match parseNat? d, parseTable? t, parseList? parseRat? r with
+    | some d, some t, some r =>
+      match st.gp with
+      | none => (st, "guard")
+      | some g =>
+        if d ≥ 1 && t.length ≥ 1 && t.length == r.length && rect d t then
+          let s := g.data.readData Gen.ModelData.counts t r d
+          ({ st with gp := some { g with data := s } }, showData s)
+        else (st, "guard")
     | _, _, _ => (st, "bad-op")
   | ["append", t, r] =>
     match parseTable? t, parseList? parseRat? r with
